@@ -60,6 +60,7 @@ func (m *CPU) Run(app risc.Application) (int, error) {
 	cycle := 0
 	for {
 		cycle++
+		m.ctx.VerifTick(0, cycle)
 		if m.ctx.Debug {
 			fmt.Printf("%d\n", int32(cycle))
 		}
@@ -91,6 +92,7 @@ func (m *CPU) Run(app risc.Application) (int, error) {
 			}
 			for !m.writeUnit.isEmpty() || !m.writeBus.IsEmpty() {
 				cycle++
+				m.ctx.VerifTick(2, cycle)
 				m.writeUnit.cycle(m.ctx, m.writeBus)
 			}
 			m.flush(pc)
